@@ -1,7 +1,7 @@
 import CalicoVerif.Util.Proto
 import CalicoVerif.Model.C35
 /-! Driver for C35: ops
-  `new <mask>` | `single` | `block <size>` | `n2m <int>` | `m2n <mark>` | `free` | `avail`
+  `new <mask>` | `single` | `block <size (Go int, may be negative)>` | `n2m <int>` | `m2n <mark>` | `free` | `avail`
 -/
 open CalicoVerif CalicoVerif.C35 CalicoVerif.Proto
 
@@ -11,8 +11,8 @@ def step (m : Mgr) (line : String) : Mgr × String :=
     | some k => (Mgr.new k, "ok")
     | none => (m, "bad-op")
   | ["single"] => let (m', r) := m.nextSingle; (m', showOptNat r)
-  | ["block", a] => match a.toNat? with
-    | some k => let (m', mark, n) := m.nextBlock k 0 0; (m', s!"{mark} {n}")
+  | ["block", a] => match a.toInt? with
+    | some k => let (m', mark, n) := m.nextBlockInt k; (m', s!"{mark} {n}")
     | none => (m, "bad-op")
   | ["n2m", a] => match a.toInt? with
     | some k => (m, showOptNat (mapNumberToMark m.mask k))
